@@ -197,6 +197,41 @@ class GLang:
         self.opid = {n: i for i, n in enumerate(self.ops)}
         self.built = False
 
+    @staticmethod
+    def from_description(d) -> "GLang":
+        """rebuild a language from GLang.describe() (replays, corpus)"""
+        def ast(t):
+            return (t[0], [ast(a) for a in t[1]])
+        g = GLang.__new__(GLang)
+        g.base = [(n, p) for n, p in d["base"]]
+        g.comp = [(n, a, c) for n, a, c in d["compound"]]
+        g.syn0 = [(n, ast(t)) for n, t in d["syn0"]]
+        g.syn1 = [(n, c, ast(t) if t else None) for n, c, t in d["syn1"]]
+        g.ops = {}
+        for n, v in d["operators"].items():
+            if v[0] == "fun":
+                g.ops[n] = ("fun", [ast(t) for t in v[1]], ast(v[2]))
+            elif v[0] == "const":
+                g.ops[n] = ("const", ast(v[1]))
+            else:
+                g.ops[n] = ("schema", v[1])
+        g._number()
+        return g
+
+    def _number(self):
+        self.tyid = {}
+        for i, (n, _) in enumerate(self.base):
+            self.tyid[n] = (5 + i, 0)
+        for i, (n, ar, _) in enumerate(self.comp):
+            self.tyid[n] = (5 + len(self.base) + i, ar)
+        for i, (n, _) in enumerate(self.syn0):
+            self.tyid[n] = (100 + i, 0)
+        for i, (n, _, _) in enumerate(self.syn1):
+            self.tyid[n] = (110 + i, 1)
+        self.opid = {n: i for i, n in enumerate(self.ops)}
+        self.idname = {i: n for n, (i, _) in self.tyid.items()}
+        self.built = False
+
     # ----- type ASTs
     def gen_ty(self, r, depth, noprod=True, var=0.0):
         if var and r.random() < var:
@@ -369,6 +404,10 @@ class TreeGen:
             # a supertype: calling the operator on it is a type error, and it must be one
             # in every notation
             return ("ann", ("dash",), self.gl.sup_ty(r, t))
+        if k < 0.13:
+            # annotated twice: the first makes the type, the second only bounds it
+            t1 = self.gl.sub_ty(r, t)
+            return ("ann", ("ann", ("dash",), t1), self.gl.sup_ty(r, t1) if r.random() < 0.8 else t)
         if k < 0.55:
             return ("ann", ("dash",), self.gl.sub_ty(r, t))
         if k < 0.66:
@@ -680,9 +719,6 @@ def plain_render(e) -> str:
 
 # ---------------------------------------------------------------------------
 # the implementation side
-
-DECLARED = None
-
 
 def declared_family(gl: GLang, ex: BaseException):
     """code of a declared error class, or None for anything else"""
@@ -1280,7 +1316,7 @@ def main(tier: str, seed: int, replay: str | None = None) -> int:
     if tier == "quick":
         nlang, ntree, nrend, nmal = 8, 7, 8, 40
     else:
-        nlang, ntree, nrend, nmal = 60, 22, 10, 150
+        nlang, ntree, nrend, nmal = 50, 22, 10, 150
     t_gen = time.time()
 
     # ---- generate
@@ -1308,6 +1344,12 @@ def main(tier: str, seed: int, replay: str | None = None) -> int:
             trees.append((e, decl, rends))
             cases += [(len(decl), s) for _, s, _ in rends]
         mal = []
+        if trees:
+            # number 0 (Python's index -1) and numbers past the inputs: correspondence only
+            opn = next(iter(gl.ops))
+            for ni in (0, 1, 2, 3):
+                d = [None] * ni
+                mal += [(ni, f"{opn} 0", d), (ni, "0", d), (ni, f"{opn} (00 : Top) {ni}", d), (ni, f"{opn} {ni + 1}", d)]
         while len(mal) < nmal and trees:
             e, decl, rends = rng.choice(trees)
             s = mutate_string(rng, rng.choice(rends)[1], names)
